@@ -11,6 +11,10 @@ CLAIMS['C11'] = {'category': 'proof', 'design_ref': 'DESIGN.md section 4, C11',
   'technique': 'CBMC code contracts + loop contracts (dfcc) on extracted C with a lock-step ghost reference decoder',
   'text': 'The three decode steps, the three validate functions and the counting loop of gr_count_unicode_characters (both the end-delimited and the NUL-terminated form, all three encodings) are proved against a reference decoder written from the Unicode Standard: every read inside the exact-size buffer, count equal to the reference count, error reported exactly when the reference meets an ill-formed sequence first, error pointer inside the buffer, termination. Loops are closed by inductive loop contracts (buffer length symbolic).',
   'note': 'Not decided: the encoding-equivalence of whole segments (needs the whole shaper; only the decoding half is proved here and in C12). Known finding (not repaired): UTF-8/UTF-32 encoded surrogate code points are accepted as well-formed (strict units, KNOWN-FINDING lines). Trusted: CBMC, extraction rewrites (iterator operators mapped onto the extracted operator bodies), harness bound MAXN on the buffer length (256 quick / 4096 thorough).'}
+CLAIMS['C12'] = {'category': 'proof', 'design_ref': 'DESIGN.md section 4, C12',
+  'technique': 'CBMC code contracts + loop contract (dfcc) on extracted C; ghost call log on the appendSlot stub',
+  'text': 'process_utf_data (the loop that consumes the text) is proved for all three encodings on NUL-terminated strings in exact-size buffers with arbitrary nChars: no read beyond the terminating NUL, stop at the first NUL or after nChars characters, one appendSlot/char-info per character consumed, return value = characters consumed; Segment::read_text is proved to store that number as the char-info and slot count. The decode step it relies on is the C11 get contract (its units are part of this check).',
+  'note': 'Assumed contracts: Cmap lookup / findPseudo (any result, no side effect; C13), appendSlot (ghost log only). gr_make_seg -> makeAndInitialize -> read_text call chain itself is not under contract (two straight-line calls). A genuine defect found by this contract (no NUL stop) was repaired in /repo (fix: a6369e61).'}
 NOT_APPLICABLE = {p: PENDING for p in ['C01','C02','C03','C04','C05','C06','C07','C11','C12','C13','C14','C16','C17','C18','C19','C20']}
 NOT_APPLICABLE.update({
  'C08': 'history independence quantifies over all API histories; as a contract it is a whole-program frame condition over ~10 kLOC of C++ outside CBMC\'s C subset; the provable pieces (empty frames of the face-reading lookups) are reported under C01/C13/C18',
